@@ -91,6 +91,9 @@ def main(rep):
             if k == 3 and rep.tier == "quick" and rng.random() < 0.6:
                 continue
             mounted = [r for r in roots if rng.random() < 0.4]
+            if rng.random() < 0.3:
+                # a long mount table (more than one page): the roots of interest are listed after the first 4 KiB
+                mounted = ["/mnt/filler-%03d-%s" % (i, "x" * 60) for i in range(70)] + mounted
             # the same directory may be spelled in several ways on the command line (".", "..", relative):
             # what counts is the directory it resolves to
             def spell(r):
@@ -183,7 +186,7 @@ def main(rep):
                                      "root sets on main()": len(mcases)}
     rep.cov["rule"] = ("every argv up to length %d over {-c,-d,-w,-e,-h,-v,-x,--,x,'',-wx} through the real parse_params, judged by a reference parser written from the "
                        "documented grammar; all pairs of 11 canonical paths through get_common_parent_path_length against 'deepest common directory'; the real main() on every "
-                       "sequence of 1-3 write roots from {/, /a, /a/b, /a/c, /d} (equal, nested, disjoint, the root directory; about a third spelled non-canonically, e.g. '/a/.', '/x/../a') with random mount tables and exec roots: "
+                       "sequence of 1-3 write roots from {/, /a, /a/b, /a/c, /d} (equal, nested, disjoint, the root directory; about a third spelled non-canonically, e.g. '/a/.', '/x/../a') with random mount tables (some longer than a page, read in whole records as from /proc) and exec roots: "
                        "a directory is bind-mounted exactly when not yet a mount point, every root marked, offset of relative paths = deepest common directory; malformed "
                        "command lines rejected before anything is mounted or watched" % maxlen)
     rep.cov["samples"] = [pcases[100][1], mcases[10][1].split("\n")[:3]]
